@@ -243,7 +243,7 @@ theorem step_kind (P : Params) (s s' : St) (l : Label) (o : Option Obs)
       · simp only [Option.some.injEq, Prod.mk.injEq] at h; obtain ⟨rfl, _⟩ := h
         exact .env (SameCore.setUpc _ _ _) (by simp; exact .same _)
       · simp only [Option.some.injEq, Prod.mk.injEq] at h; obtain ⟨rfl, _⟩ := h
-        exact .env (SameCore.refl _) (.same _)
+        exact .env (SameCore.setUpc _ _ _) (by simp; exact .same _)
     · simp at h
   case reg t cb =>
     simp only [Option.some.injEq, Prod.mk.injEq] at h; obtain ⟨rfl, _⟩ := h
@@ -252,6 +252,11 @@ theorem step_kind (P : Params) (s s' : St) (l : Label) (o : Option Obs)
     simp only [Option.some.injEq, Prod.mk.injEq] at h; obtain ⟨rfl, _⟩ := h
     exact .env (by constructor <;> rfl) (.same _)
   case publish =>
+    split at h
+    · simp only [Option.some.injEq, Prod.mk.injEq] at h; obtain ⟨rfl, _⟩ := h
+      exact .env (by constructor <;> rfl) (.same _)
+    · simp at h
+  case connectFailed =>
     split at h
     · simp only [Option.some.injEq, Prod.mk.injEq] at h; obtain ⟨rfl, _⟩ := h
       exact .env (by constructor <;> rfl) (.same _)
